@@ -273,7 +273,29 @@ func ruleValidateBeforeMutate(c *Ctx, rule string) {
 			n++
 			q := &an.Query{Facts: true, Target: func(t ssa.Instruction) bool {
 				r, ok := t.(*ssa.Return)
-				return ok && an.IsErrorReturn(r)
+				if !ok {
+					return false
+				}
+				if an.IsErrorReturn(r) {
+					return true
+				}
+				// `return g(...)` where g can itself return an error
+				if ei := an.ErrorResultIndex(f); ei >= 0 {
+					v := an.ReturnValue(r, ei)
+					if ex, isEx := v.(*ssa.Extract); isEx {
+						v = ex.Tuple
+					}
+					if call, isCall := v.(*ssa.Call); isCall && ssa.Instruction(call) != in {
+						if g2 := an.StaticCallee(&call.Call); g2 != nil && an.InModule(g2) {
+							for _, rr := range an.Returns(g2) {
+								if an.IsErrorReturn(rr) {
+									return true
+								}
+							}
+						}
+					}
+				}
+				return false
 			}}
 			path := q.Search(an.After(in))
 			construct := strings.ReplaceAll(what, " ", "-") + "/on:" + x + "/then-error-return"
